@@ -14,7 +14,7 @@
    tabulation of the running code regenerated on every run; g7_find r g7_runs is
    the row describing what the code did with the one-character text r. *)
 From V Require Import Model.Base Model.Gsm7 Spec.Gsm0338 Gen.Gsm7Tables
-  Proofs.Gsm7Bits Proofs.Gsm7Proofs Proofs.Gsm7Code.
+  Proofs.Gsm7Bits Proofs.Gsm7Proofs Proofs.Gsm7Code Proofs.Gsm7Xf.
 Open Scope N_scope.
 Local Notation length := List.length.
 
@@ -54,20 +54,30 @@ Proof. exact encode_accepts. Qed.
 Theorem C08_model_alphabet : forall r, r <> 0xC7 -> r <> 0xE7 -> rune_septets r = spec_septets r.
 Proof. exact model_alphabet_is_spec. Qed.
 
-(* decoder side, every septet and every ESC+septet, running code vs standard and vs model *)
-Theorem C08_decode_single : forall s src cls rs, In (s, src, cls, rs) g7_dec_single -> s <> 9 -> (cls, rs) = spec_single s.
+(* decoder side, every septet and every ESC+septet, running code vs standard and vs model:
+   where GSM 03.38 has a character at that position (has_char) the running decoder returns exactly
+   it; where it has none (a lone ESC, ESC + a code without an extension character) C08 asks for
+   "a value or an error" and nothing more (GSM 03.38 6.2.1.1 itself lets a receiver show the
+   default-table character or a space there) *)
+Theorem C08_decode_single : forall s src cls rs, In (s, src, cls, rs) g7_dec_single -> s <> 9 ->
+  (has_char [] s = true -> (cls, rs) = spec_single s) /\ (has_char [] s = false -> cls = 0 \/ cls = 1).
 Proof. exact g7_dec_single_spec. Qed.
-Theorem C08_decode_escape : forall s src cls rs, In (s, src, cls, rs) g7_dec_escape -> (cls, rs) = spec_escape s.
+Theorem C08_decode_escape : forall s src cls rs, In (s, src, cls, rs) g7_dec_escape ->
+  (has_char [gsm_esc] s = true -> (cls, rs) = spec_escape s) /\ (has_char [gsm_esc] s = false -> cls = 0 \/ cls = 1).
 Proof. exact g7_dec_escape_spec. Qed.
+(* has_char is not vacuous: all 127 default positions and the 10 extension positions *)
+Theorem C08_decode_positions :
+  length (filter (has_char []) (nat_seq_N 128)) = 127%nat /\ length (filter (has_char [gsm_esc]) (nat_seq_N 128)) = 10%nat.
+Proof. exact has_char_counts. Qed.
 Theorem C08_decode_tables_complete :
   map (fun x => fst (fst (fst x))) g7_dec_single = nat_seq_N 128 /\
   map (fun x => fst (fst (fst x))) g7_dec_escape = nat_seq_N 128.
 Proof. exact (conj g7_dec_single_keys g7_dec_escape_keys). Qed.
 Theorem C08_decode_single_model : forall s src cls rs, In (s, src, cls, rs) g7_dec_single ->
-  out_is beq_runes (decode src) cls rs = true.
+  if has_char [] s then out_is beq_runes (decode src) cls rs = true else dec_obs_ok src cls rs = true.
 Proof. exact g7_dec_single_model_row. Qed.
 Theorem C08_decode_escape_model : forall s src cls rs, In (s, src, cls, rs) g7_dec_escape ->
-  out_is beq_runes (decode src) cls rs = true.
+  if has_char [gsm_esc] s then out_is beq_runes (decode src) cls rs = true else dec_obs_ok src cls rs = true.
 Proof. exact g7_dec_escape_model_row. Qed.
 
 (* ---- exact packing ------------------------------------------------------- *)
@@ -119,18 +129,96 @@ Theorem C08_decode_any_capacity : forall dstlen src,
   dec_transform dstlen src = decode src \/ dec_transform dstlen src = Err ESize.
 Proof. exact dec_transform_any_dst. Qed.
 
+(* ---- the Transformer contract: "return a value or an error" at every entry point ---------- *)
+(* Vocabulary: enc_xf d0 t srclen ateof / enc_xfb d0 src ateof / dec_xf d0 src ateof model one call
+   Transform(dst, src, atEOF) with the destination AS THE CALLER LEFT IT (d0: any octets, any length)
+   and return the whole destination after the call, nDst, nSrc and the error (XNil, XShortDst,
+   XShortSrc, XInvalid).  xf_value = what transform.Bytes / String / Reader / Writer+Close deliver. *)
+
+(* One equation for the encoder: for EVERY prior destination content, size, source length and atEOF,
+   the call returns exactly: nothing for an empty source; ErrShortSrc, nothing claimed, before atEOF;
+   the error for a text [encode] refuses; ErrShortDst, nothing claimed, iff the destination is shorter
+   than the octets of [encode]; otherwise those octets at the front of the destination, the rest of
+   the destination untouched, nDst = their number, nSrc = len(src). *)
+Theorem C08_encoder_contract : forall d0 t srclen ateof, octets d0 ->
+  enc_xf d0 t srclen ateof = Ok (enc_xf_result d0 t srclen ateof).
+Proof. exact enc_xf_contract. Qed.
+
+Theorem C08_encoder_success : forall d0 t srclen ateof r, octets d0 ->
+  enc_xf d0 t srclen ateof = Ok r -> x_err r = XNil -> t <> [] ->
+  ateof = true /\ x_nsrc r = srclen /\ (x_ndst r <= length d0)%nat /\ length (x_dst r) = length d0 /\
+  encode t = Ok (firstn (x_ndst r) (x_dst r)) /\ skipn (x_ndst r) (x_dst r) = skipn (x_ndst r) d0.
+Proof. exact enc_xf_success. Qed.
+
+Theorem C08_encoder_no_partial_claim : forall d0 t srclen ateof r, octets d0 ->
+  enc_xf d0 t srclen ateof = Ok r -> x_err r <> XNil -> x_ndst r = 0%nat /\ x_nsrc r = 0%nat /\ x_dst r = d0.
+Proof. exact enc_xf_no_partial_claim. Qed.
+
+Theorem C08_encoder_short : forall d0 t srclen ateof r, octets d0 -> enc_xf d0 t srclen ateof = Ok r ->
+  (x_err r = XShortDst <-> t <> [] /\ ateof = true /\ exists out, encode t = Ok out /\ (length d0 < length out)%nat) /\
+  (x_err r = XShortSrc <-> t <> [] /\ ateof = false).
+Proof. exact enc_xf_short. Qed.
+
+(* the octets delivered do not depend on what the destination held (the zeroed destination of
+   C08_encode_any_capacity is one instance: C08_encode_zeroed_is_instance) *)
+Theorem C08_encoder_any_destination : forall d0 t srclen, octets d0 ->
+  xf_value (enc_xf d0 t srclen true) =
+    match encode t with
+    | Ok out => if (length d0 <? length out)%nat then Err ESize else Ok out
+    | Err _ => Err EText
+    | Panic => Panic
+    end.
+Proof. exact enc_value_any_destination. Qed.
+Theorem C08_encode_zeroed_is_instance : forall dstlen t, is_ok (to_septets t) = true ->
+  enc_transform dstlen t = xf_value (enc_xf (repeat 0 dstlen) t (utf8_total t) true).
+Proof. exact enc_transform_is_xf. Qed.
+
+(* the UTF-8 layer: ARBITRARY source octets never panic; if octets come back, the source was the
+   UTF-8 form of a text of accepted characters (Go's range turns every ill-formed octet into U+FFFD,
+   which is refused), the octets are [encode] of that text, and the whole source is consumed *)
+Theorem C08_encoder_source_total : forall d0 src ateof, octets d0 -> enc_xfb d0 src ateof <> Panic.
+Proof. exact enc_xfb_total. Qed.
+Theorem C08_encoder_source_is_utf8 : forall d0 src r, octets d0 -> enc_xfb d0 src true = Ok r -> x_err r = XNil -> src <> [] ->
+  let t := utf8_dec src in
+  utf8_bytes t = src /\ Forall (fun c => rune_septets c <> None) t /\
+  encode t = Ok (firstn (x_ndst r) (x_dst r)) /\ x_nsrc r = length src.
+Proof. exact enc_xfb_sound. Qed.
+Theorem C08_utf8_faithful : forall src, ~ In 0xFFFD (utf8_dec src) -> utf8_bytes (utf8_dec src) = src.
+Proof. exact utf8_dec_faithful. Qed.
+
+(* the decoder: arbitrary source octets, arbitrary destination: always an answer; success consumes
+   the whole source and dst[:nDst] is the UTF-8 form of [decode src] whatever the destination held;
+   every other answer claims nothing and leaves the destination alone; ErrShortDst only if the
+   destination is smaller than the text plus one octet (the filler CR is copied before it is dropped) *)
+Theorem C08_decoder_answers : forall d0 src ateof, exists r, dec_xf d0 src ateof = Ok r.
+Proof. exact dec_xf_total. Qed.
+Theorem C08_decoder_success : forall d0 src ateof r, dec_xf d0 src ateof = Ok r -> x_err r = XNil -> src <> [] ->
+  ateof = true /\ x_nsrc r = length src /\ (x_ndst r <= length d0)%nat /\ length (x_dst r) = length d0 /\
+  exists t, decode src = Ok t /\ firstn (x_ndst r) (x_dst r) = utf8_bytes t.
+Proof. exact dec_xf_success. Qed.
+Theorem C08_decoder_no_partial_claim : forall d0 src ateof r,
+  dec_xf d0 src ateof = Ok r -> x_err r <> XNil -> x_ndst r = 0%nat /\ x_nsrc r = 0%nat /\ x_dst r = d0.
+Proof. exact dec_xf_no_partial_claim. Qed.
+Theorem C08_decoder_short : forall d0 src ateof r, dec_xf d0 src ateof = Ok r -> x_err r = XShortDst ->
+  exists t, decode src = Ok t /\ (length d0 < length (utf8_bytes t) + 1)%nat.
+Proof. exact dec_xf_short. Qed.
+
+(* any chunking: a caller that follows the x/text contract ([feed]: atEOF=false while chunks arrive,
+   what was not consumed is presented again, atEOF=true at the end) gets, over EVERY chunking of the
+   source, what the single call on the whole source gives *)
+Theorem C08_encoder_any_chunking : forall d0 chunks, octets d0 ->
+  feed enc_xfb d0 [] chunks = xf_value (enc_xfb d0 (List.concat chunks) true).
+Proof. exact enc_feed_any_chunking. Qed.
+Theorem C08_decoder_any_chunking : forall d0 chunks,
+  feed dec_xf d0 [] chunks = xf_value (dec_xf d0 (List.concat chunks) true).
+Proof. exact dec_feed_any_chunking. Qed.
+
 (* ---- detector ------------------------------------------------------------- *)
 Theorem C08_detector : forall t, validate t = is_ok (encode t).
 Proof. exact detector_iff. Qed.
 Theorem C08_detector_code : forall r, scalar r ->
   exists x, g7_find r g7_runs = Some x /\ row_lo x <= r <= row_hi x /\ (row_validate x = true <-> row_cls x = 0).
 Proof. exact g7_code_detector. Qed.
-
-(* ---- the defects repaired by the fix: commits, on the pre-fix variants ---- *)
-Theorem C08_D14_before_fix :
-  let s := [27; 60; 27; 60; 97; 98; 99; 100; 101; 102; 103; 104; 105; 106; 107; 13] in
-  pack_septets_legacy (repeat 0 14%nat) s = Panic /\ pack_septets (repeat 0 14%nat) s <> Panic.
-Proof. exact d14_before_fix. Qed.
 
 (* ---- non-vacuity ----------------------------------------------------------- *)
 (* "1234567": seven septets, CR filler, the repository's own test vector *)
@@ -146,3 +234,14 @@ Example C08_example_escape_and_ambiguous :
   (exists o, encode [97; 98; 99; 100; 101; 102; 103; 13] = Ok o /\ decode o = Ok [97; 98; 99; 100; 101; 102; 103]) /\
   encode [97; 0xA0] = Err EText /\ validate [97; 0xA0] = false /\ validate [0x20AC; 64] = true.
 Proof. vm_compute. repeat split. eexists. split; reflexivity. Qed.
+(* "abc" into a destination the caller left full of 0xFF: three octets, none of the 0xFF bits kept, the
+   rest untouched, nSrc = 3; the same source in two chunks; a destination one octet short; an
+   ill-formed source octet *)
+Example C08_example_transformer :
+  enc_xfb (hx "ffffffffff") (hx "616263") true = Ok (mkx (hx "61f118ffff") 3 3 XNil) /\
+  feed enc_xfb (hx "ffffffffff") [] [hx "61"; hx "6263"] = Ok (hx "61f118") /\
+  enc_xfb (hx "ffff") (hx "616263") true = Ok (mkx (hx "ffff") 0 0 XShortDst) /\
+  enc_xfb (hx "ffffffffff") (hx "616263") false = Ok (mkx (hx "ffffffffff") 0 0 XShortSrc) /\
+  enc_xfb (hx "ffffffffff") (hx "61c3") true = Ok (mkx (hx "ffffffffff") 0 0 XInvalid) /\
+  dec_xf (hx "ffffffffffffffffff") (hx "31d98c56b3dd1a") true = Ok (mkx (hx "313233343536370dff") 7 7 XNil).
+Proof. vm_compute. repeat split. Qed.
